@@ -406,11 +406,18 @@ func Run(cfg Config, opString func(int) string) Stats {
 					}
 
 					for _, s := range r.Succ {
-						if seen[s.Key] {
+						// a state that will not be expanded must not shadow the same key
+						// reached later through a transition that may be expanded
+						sk := s.Key
+						if s.Broken && !cfg.ExpandBroken {
+							sk = "broken|" + sk
+						}
+
+						if seen[sk] {
 							continue
 						}
 
-						seen[s.Key] = true
+						seen[sk] = true
 						st.States++
 
 						h := append(append([]int{}, nd.h...), s.Op)
